@@ -170,7 +170,7 @@ def rule_pipeline(ctx, rep):
             rep.error("R-C06-pipeline", fn + " not found")
             continue
         bb = bs[0]
-        ins = [c for c in bb.calls() if (c.callee or "").endswith("HashMap::insert")]
+        ins = [c for c in bb.calls() if (c.callee or "").endswith(("HashMap::insert", "BTreeMap::insert"))]
         walks = [c for c in bb.calls() if (c.u or c.callee or "").endswith("Visitor::walk")]
         inst = "%s|collection loop before walk" % fn.split("::")[-2]
         w = "%s:%d" % (bb.f["file"], bb.f["line"])
